@@ -346,7 +346,11 @@ class GeneratorContract(Contract):
                     return None
                 eng.raise_(st_, raises[k - 2], tag={"from": label})
 
-        return VGen("repo-generator", H())
+        h = H()
+        h.contract = contract
+        h.self_v = self_v
+        it.emit(st, "gen.call", node, source=contract.key, receiver=self_v)
+        return VGen("repo-generator", h)
 
 
 # ------------------------------------------------------------------------------
